@@ -51,6 +51,8 @@ func FetchRecord(ctx context.Context, r Resolver, fromDomain string) (policyDoma
 			return "", nil, err
 		}
 	}
+	// Exclude records that are not DMARC policies.
+	txts = dmarcRecords(txts)
 	if len(txts) == 0 {
 		// No records or 'no such host', try orgDomain.
 		orgDomain, err := publicsuffix.EffectiveTLDPlusOne(fromDomain)
@@ -67,27 +69,32 @@ func FetchRecord(ctx context.Context, r Resolver, fromDomain string) (policyDoma
 				return "", nil, err
 			}
 		}
+		txts = dmarcRecords(txts)
 		// Still nothing? Bail out.
 		if len(txts) == 0 {
 			return "", nil, nil
 		}
 	}
 
-	// Exclude records that are not DMARC policies.
+	// Multiple records => no record.
+	if len(txts) > 1 {
+		return "", nil, nil
+	}
+
+	rec, err = dmarc.Parse(txts[0])
+
+	return policyDomain, rec, err
+}
+
+// dmarcRecords drops the TXT records that are not DMARC policies.
+func dmarcRecords(txts []string) []string {
 	records := txts[:0]
 	for _, txt := range txts {
 		if strings.HasPrefix(txt, "v=DMARC1") {
 			records = append(records, txt)
 		}
 	}
-	// Multiple records => no record.
-	if len(records) > 1 || len(records) == 0 {
-		return "", nil, nil
-	}
-
-	rec, err = dmarc.Parse(records[0])
-
-	return policyDomain, rec, err
+	return records
 }
 
 type EvalResult struct {
